@@ -29,6 +29,7 @@ type WNode struct {
 	Annotations   map[string]string
 	Taints        []WTaint
 	Unschedulable bool
+	Terminating   bool  // deletion requested (a finalizer is pending): still a node like any other
 	CreatedAgo    int64 // seconds
 	CreatedZero   bool
 	AllocCPU      int64 // milli
@@ -74,6 +75,7 @@ type WPod struct {
 	Overhead     *[2]int64
 	Phase        string
 	Scheduled    *bool
+	Terminating  bool // deletion requested, still running out its grace period: counts like any other pod
 }
 
 // quantityForms: render the amounts through the string forms users write (same value, other syntax),
@@ -157,6 +159,11 @@ func (p *WPod) materialise() *v1.Pod {
 	if p.Overhead != nil {
 		pod.Spec.Overhead = resList(p.Overhead[0], p.Overhead[1])
 	}
+	if p.Terminating {
+		ts := metav1.NewTime(time.Unix(1700000000, 0))
+		gp := int64(30)
+		pod.DeletionTimestamp, pod.DeletionGracePeriodSeconds = &ts, &gp
+	}
 	if p.Scheduled != nil {
 		st := v1.ConditionFalse
 		if *p.Scheduled {
@@ -178,6 +185,11 @@ func (n *WNode) materialise(nowSec int64) *v1.Node {
 	}
 	for k, v := range n.Annotations {
 		node.Annotations[k] = v
+	}
+	if n.Terminating {
+		ts := metav1.NewTime(time.Unix(1700000000, 0))
+		node.DeletionTimestamp = &ts
+		node.Finalizers = []string{"example.com/hold"}
 	}
 	if !n.CreatedZero {
 		t := time.Unix(nowSec-n.CreatedAgo, 0)
